@@ -158,7 +158,21 @@ HMSG = [
     ("CallOnly", True, []),
     ("CallSt", True, ["u8", "f32"]),
     ("EmptySt", False, []),
+    ("Many", False, ["u8", "i64", "str", "vu16", "bool", "unit"]),
+    ("CallMany", True, ["str", "vu8", "char"]),
 ]
+REPLY_TY = {7: "u8", 8: "str", 9: "vu8", 10: "unit", 11: "u32", 14: "vi32"}
+PRIMS = ["u8", "u32", "i64", "u128", "f64", "bool", "char", "str", "unit", "vu8", "vi16", "vchar"]
+GINST = ["u16", "str", "vi64"]
+
+
+def gtbl(t):
+    """variant table of the generic harness enum GMsg<T>"""
+    return (f"[mkVar {blist(b'V')} false [{coq_ty(t)}]; mkVar {blist(b'Ask')} true [{coq_ty(t)}]; "
+            f"mkVar {blist(b'Two')} false [{coq_ty(t)}; {coq_ty(t)}]]")
+
+
+GVARS = [("V", False, 1), ("Ask", True, 1), ("Two", False, 2)]
 TBL = "[" + "; ".join(
     f"mkVar {blist(tag.encode())} {'true' if call else 'false'} [{'; '.join(coq_ty(t) for t in tys)}]"
     for tag, call, tys in HMSG) + "]"
@@ -173,6 +187,7 @@ def smsg_coq(kind, tag, args, meta):
     m = "None" if meta is None else f"(Some {blist(meta)})"
     if kind == "reply":
         return "SReply"
+    # "callt" = a call whose reply port carries a timeout: the same message on the wire
     return f"({'SCast' if kind == 'cast' else 'SCall'} {blist(tag)} {blist(args)} {m})"
 
 
@@ -594,6 +609,8 @@ def run(chk):
         args = valid_args(i, gen_fields(i))
         kind = "call" if call else "cast"
         tagb = tag.encode()
+        if call and rng.random() < 0.4:
+            kind = "callt"
         r = rng.random()
         if r < 0.25:
             pass
@@ -606,7 +623,7 @@ def run(chk):
         elif r < 0.72:
             tagb = rng.choice([b"", b"Nope", b"unit", tagb + b"x", tagb[:-1], HMSG[rng.randrange(len(HMSG))][0].encode()])
         elif r < 0.78:
-            kind = rng.choice(["cast", "call", "reply"])               # wrong kind for the variant
+            kind = rng.choice(["cast", "call", "callt", "reply"])      # wrong kind for the variant
         elif r < 0.94 and tys:
             # a conversion that panics: invalid scalar / utf8 / too short for the type
             fs = [py_encode(t, v) for t, v in zip(tys, gen_fields(i))]
@@ -758,6 +775,119 @@ def run(chk):
             model = f"flat_map (fun m => match deserialize tbl m with Some x => [x] | None => [] end) {ms}"
         actor.add(line, model, (who, msgs))
 
+    # ---- the same through Message::box_message(remote pid) / Message::from_boxed
+    en_box = Cases("enum box")
+    for _ in range(500 * N):
+        i = rng.randrange(len(HMSG))
+        vs = gen_fields(i)
+        en_box.add(f"enum box {i} {fields_line(i, vs)}",
+                   f"(serialize tbl {i} {fields_coq(i, vs)}, "
+                   f"match serialize tbl {i} {fields_coq(i, vs)} with Some m => deserialize tbl m | None => None end)",
+                   (i, vs))
+    # ---- a generic derived enum GMsg<T>
+    g_de, g_rt = Cases("genum de"), Cases("genum rt")
+    for _ in range(600 * N):
+        t = rng.choice(GINST)
+        vi = rng.randrange(3)
+        tag, call, nf = GVARS[vi]
+        vs = [gen_value(rng, t) for _ in range(nf)]
+        args = pack([py_encode(t, v) for v in vs])
+        kind = ("callt" if rng.random() < 0.4 else "call") if call else "cast"
+        tagb = tag.encode()
+        r = rng.random()
+        if r < 0.3:
+            pass
+        elif r < 0.6:
+            args = mutate(rng, args)
+        elif r < 0.7:
+            args += b"\x00"
+        elif r < 0.8:
+            tagb = rng.choice([b"", b"v", b"Asks", b"Two", b"V"])
+        elif r < 0.9:
+            kind = rng.choice(["cast", "call", "reply"])
+        else:
+            args = pack([rng.choice([b"", b"\xff", b"\x00"]) for _ in range(nf)])
+        m = smsg_coq(kind, tagb, args, None)
+        g_de.add(f"genum de {t} {smsg_line(kind, tagb, args, None)}",
+                 f"(deserialize {gtbl(t)} {m}, framing_ok_C19 {gtbl(t)} {m})", (kind, tagb, args))
+    for _ in range(300 * N):
+        t = rng.choice(GINST)
+        vi = rng.randrange(3)
+        vs = [gen_value(rng, t) for _ in range(GVARS[vi][2])]
+        fc = "[" + "; ".join(val_coq(t, v) for v in vs) + "]"
+        g_rt.add(f"genum rt {t} {vi} {'|'.join(val_line(t, v) for v in vs)}",
+                 f"(serialize {gtbl(t)} {vi} {fc}, match serialize {gtbl(t)} {vi} {fc} with "
+                 f"Some m => deserialize {gtbl(t)} m | None => None end)", (vi, t, vs))
+    # ---- primitive message types (blanket Message impl), non-serializable message types
+    p_de, p_rt, plain = Cases("msg de"), Cases("msg rt"), Cases("plain")
+    for _ in range(800 * N):
+        t = rng.choice(PRIMS)
+        kind = rng.choice(["cast"] * 6 + ["call", "callt", "reply"])
+        tagb = rng.choice([b"", b"", b"A", b"Tup"])
+        args = mutate(rng, py_encode(t, gen_value(rng, t))) if rng.random() < 0.6 else \
+            rng.choice([py_encode(t, gen_value(rng, t)), rand_bytes(rng, 12)])
+        meta = None if rng.random() < 0.8 else rand_bytes(rng, 8)
+        p_de.add(f"msg de {t} {smsg_line(kind, tagb, args, meta)}",
+                 f"prim_deserialize {coq_ty(t)} {smsg_coq(kind, tagb, args, meta)}", (t, kind, args))
+    for _ in range(400 * N):
+        t = rng.choice(PRIMS)
+        v = gen_value(rng, t)
+        p_rt.add(f"msg rt {t} {val_line(t, v)}",
+                 f"(prim_serialize {coq_ty(t)} {val_coq(t, v)}, "
+                 f"prim_deserialize {coq_ty(t)} (prim_serialize {coq_ty(t)} {val_coq(t, v)}))", (t, v))
+    for _ in range(30 * N):
+        kind, tagb, args = gen_smsg()
+        plain.add(f"plain {smsg_line(kind, rng.choice([b'A', b'B', tagb]), args, None)}", None, None)
+    # ---- reply bridges of #[rpc] variants
+    rp_rt, rp_de = Cases("reply rt"), Cases("reply de")
+    for _ in range(400 * N):
+        i = rng.choice(sorted(REPLY_TY))
+        t = REPLY_TY[i]
+        to = rng.choice(["none", "timeout"])
+        v = gen_value(rng, t)
+        rp_rt.add(f"reply rt {i} {to} {val_line(t, v)}",
+                  f"(encode {coq_ty(t)} {val_coq(t, v)}, decode {coq_ty(t)} (encode {coq_ty(t)} {val_coq(t, v)}))", (i, t, v))
+        b = mutate(rng, py_encode(t, gen_value(rng, t))) if rng.random() < 0.7 else rand_bytes(rng, 9)
+        rp_de.add(f"reply de {i} {to} {hexs(b)}", f"({blist(b)}, decode {coq_ty(t)} {blist(b)})", (i, t, b))
+    # ---- around the job wire form
+    jo_misc, jobp = Cases("jo misc"), Cases("jobp de")
+    for _ in range(150 * N):
+        sub, ttl = gen_opts()
+        sub = min(sub, 1_600_000_000 * 10**9)
+        jo_misc.add(f"jo misc {sub} {'none' if ttl is None else ttl}", None, (sub, ttl))
+    for _ in range(500 * N):
+        k = rng.choice(KEYS)
+        t = rng.choice(PRIMS)
+        kind = rng.choice(["cast"] * 5 + ["call", "reply"])
+        args = mutate(rng, py_encode(t, gen_value(rng, t))) if rng.random() < 0.4 else py_encode(t, gen_value(rng, t))
+        meta = gen_meta(k)
+        m = smsg_coq(kind, b"", args, meta)
+        jobp.add(f"jobp de {k} {t} {smsg_line(kind, b'', args, meta)}",
+                 f"(job_prim_deserialize {coq_ty(k)} {coq_ty(t)} {m}, meta_ok_C19 {coq_ty(k)} {m})", (k, t, kind, args, meta))
+    # ---- live actors of primitive / non-serializable message types
+    actor2 = Cases("actor2")
+    for _ in range(150 * N):
+        t = rng.choice(PRIMS + ["plain"])
+        msgs = []
+        for _ in range(rng.choice([2, 4, 7])):
+            kind = rng.choice(["cast"] * 5 + ["call", "callt", "reply"])
+            if t == "plain":
+                _, tagb, args = gen_smsg()
+                tagb = rng.choice([b"A", b"B", tagb])
+            else:
+                tagb = rng.choice([b"", b"x"])
+                args = mutate(rng, py_encode(t, gen_value(rng, t))) if rng.random() < 0.6 else py_encode(t, gen_value(rng, t))
+            msgs.append((kind, tagb, args, None))
+        if t != "plain":
+            msgs.append(("cast", b"", py_encode(t, gen_value(rng, t)), None))
+        ms = "[" + "; ".join(smsg_coq(*m) for m in msgs) + "]"
+        if t == "plain":
+            line, model = "actor plain ", f"flat_map (fun m : smsg => @nil val) {ms}"
+        else:
+            line = f"actor prim:{t} "
+            model = f"flat_map (fun m => match prim_deserialize {coq_ty(t)} m with POk v => [v] | _ => [] end) {ms}"
+        actor2.add(line + ";".join(smsg_actor(*m) for m in msgs), model, (t, msgs))
+
     # ---- streams
     stream_cases = []   # dict(max, data, splits)
     for e in corpus["stream"]:
@@ -813,7 +943,16 @@ def run(chk):
         elif r < 0.85:
             data = mutate(rng, data)
         how = "close" if (0.55 <= r < 0.75 or rng.random() < 0.3) else "hold"
-        live_cases.append({"max": maxv, "how": how, "data": data})
+        transport = rng.choice(["mem", "mem", "tcp", "tls"])
+        role = rng.choice(["server", "server", "client"])
+        if rng.random() < 0.06:
+            how, data = "dropfirst", b""
+        elif rng.random() < 0.06:
+            # the transport's write half breaks under a dialling node: that session (only) must go
+            how, data, transport, role = rng.choice(["writefail", "flushfail"]), b"", "mem", "client"
+        sizes = rng.choice([[len(data)], [1] * min(len(data), 12), compositions(len(data), rng, 1)[-1]]) if data else []
+        live_cases.append({"max": maxv, "how": how, "data": data, "transport": transport, "role": role,
+                           "sizes": [z for z in sizes if z]})
     # ================================================================== implementation, pass 1: prost validity
     cand = set()
     for c in live_cases:
@@ -841,7 +980,8 @@ def run(chk):
         ln = rng.choice([0, mx, (mx + 1) % U64, max(mx, 1) - 1, (1 << 63) - 1, 1 << 63, U64 - 1, rng.getrandbits(64),
                          rng.getrandbits(rng.choice([1, 8, 24, 40, 63]))])
         cfl.add(f"cfl {ln} {mx}", f"checked_frame_length {ln} {mx}", (ln, mx))
-    groups = [bc_dec, bc_rt, en_de, en_rt, jo_rt, jo_de, job_de, job_rt, actor, fr_enc, cfl]
+    groups = [bc_dec, bc_rt, en_de, en_rt, jo_rt, jo_de, job_de, job_rt, actor, fr_enc, cfl,
+              en_box, g_de, g_rt, p_de, p_rt, plain, rp_rt, rp_de, jo_misc, jobp, actor2]
     lines = list(ex_lines)
     for g in groups:
         lines += g.lines
@@ -850,7 +990,15 @@ def run(chk):
         for si, sizes in enumerate(c["splits"]):
             mode = "pend" if (ci + si) % 3 == 0 else "ready"
             lines.append(f"stream {c['max']} {hexs(c['data'])} {','.join(map(str, sizes)) or '-'} {mode}")
-            st_index.append((ci, si))
+            st_index.append((ci, si, "mem"))
+        # the same stream over real sockets (plain TCP, TLS accepting end, TLS dialling end): how the
+        # chunks coalesce is up to the kernel; the outputs must still be the one-shot parse
+        if c["kind"] != "two-frame all splits" and (ci % 2 == 0 or c["kind"] in ("corpus", "two-frame cuts")):
+            for tr_, si in zip(rng.sample(["tcp", "tls", "tlsc"], 2), (0, len(c["splits"]) - 1)):
+                sizes = c["splits"][si]
+                mode = "pend" if (ci + si) % 2 == 0 else "ready"
+                lines.append(f"stream {c['max']} {hexs(c['data'])} {','.join(map(str, sizes)) or '-'} {mode} {tr_}")
+                st_index.append((ci, si, tr_))
     sr_index = []
     for ci, c in enumerate(stream_cases):
         if c["kind"] in ("random", "oversized", "unallocatable") and ci % 2 == 0 or c["kind"] == "corpus" or c["kind"] == "two-frame cuts" and ci % 3 == 0:
@@ -858,7 +1006,7 @@ def run(chk):
             lines.append(f"sreader {c['max']} {hexs(c['data'])} {','.join(map(str, sizes)) or '-'} pend")
             sr_index.append(ci)
     for c in live_cases:
-        lines.append(f"live {c['max']} {c['how']} {hexs(c['data'])}")
+        lines.append(live_line(c))
     try:
         impl = run_harness(build, "eng_codec", lines, shards=8, timeout=1500)
     except RuntimeError as ex:
@@ -891,16 +1039,19 @@ def run(chk):
     # ---- streams: translate the implementation's answers, build oracle + model expressions
     got = ans['stream']
     per_case = {}
-    for (ci, si), x in zip(st_index, got):
-        per_case.setdefault(ci, []).append((si, x))
+    for (ci, si, tr_), x in zip(st_index, got):
+        per_case.setdefault(ci, []).append((si, x, tr_))
     exprs_model, exprs_oracle, prepared = [], [], []
     for ci, c in enumerate(stream_cases):
         data, maxv = c["data"], c["max"]
         raws = py_frames(data, maxv, validtbl)
         ok_payloads = sorted({p for p in py_frames(data, maxv, None) if validtbl.get(p) is not None})
         vt = "(valid_tbl [" + "; ".join(blist(p) for p in ok_payloads) + "])"
-        answers, raw_answers = [], []
-        for si, x in per_case[ci]:
+        answers, raw_answers, sock_answers = [], [], []
+        for si, x, tr_ in per_case[ci]:
+            if x == "SETUP_FAILED":
+                chk.count("stream.socket_setup_failed")
+                continue
             if x == "PANIC":
                 hard("the frame reader panics", {"max": maxv, "stream": list(data), "split": c["splits"][si]})
                 continue
@@ -919,11 +1070,17 @@ def run(chk):
                 else:
                     tr.append("FErr EDecode")        # unknown error class: never equal to the spec unless it is that
                     soft("unclassified reader error", {"impl": x})
-            answers.append(f"([{'; '.join(tr)}], {consumed})")
+            if tr_ == "mem":
+                answers.append(f"([{'; '.join(tr)}], {consumed})")
+            else:
+                # bytes taken from a socket cannot be counted: only the outputs are judged
+                over = len(data) >= 8 and int.from_bytes(data[:8], "big") > maxv
+                sock_answers.append(f"([{'; '.join(tr)}], {8 if over else 0})")
+                chk.count("stream.transport." + tr_)
             raw_answers.append((si, x, maxreq, peak))
         uniq = sorted(set(answers))
-        prepared.append((ci, answers, raw_answers, uniq))
-        exprs_oracle.append(f"check_C19_stream {maxv} {vt} {blist(data)} [{'; '.join(uniq)}]")
+        prepared.append((ci, answers + sock_answers, raw_answers, uniq, sorted(set(sock_answers))))
+        exprs_oracle.append(f"check_C19_stream {maxv} {vt} {blist(data)} [{'; '.join(uniq + sorted(set(sock_answers)))}]")
         # by C19_fragmentation the model's answer is the same for every split; evaluate it on
         # the one-chunk run and on one real split
         sizes = c["splits"][len(c["splits"]) // 2]
@@ -942,6 +1099,20 @@ def run(chk):
     plan.many("ert oracle", [
         f"check_C19_enum_roundtrip {i} {fields_coq(i, vs)} ({split_pair(x)[1] if 'PANIC' not in x else 'None'})"
         for (i, vs), x in zip(en_rt.meta, ans["enum rt"])])
+    plan.many("ebox oracle", [
+        f"check_C19_enum_roundtrip {i} {fields_coq(i, vs)} ({split_pair(x)[1] if ('PANIC' not in x and 'DIFFERS' not in x) else 'None'})"
+        for (i, vs), x in zip(en_box.meta, ans["enum box"])])
+    plan.many("grt oracle", [
+        "check_C19_enum_roundtrip {} [{}] ({})".format(vi, "; ".join(val_coq(t, v) for v in vs),
+                                                       split_pair(x)[1] if 'PANIC' not in x else 'None')
+        for (vi, t, vs), x in zip(g_rt.meta, ans["genum rt"])])
+    plan.many("reply oracle", [
+        f"check_C19_roundtrip {val_coq(t, v)} ({split_pair(x)[1] if x.startswith('(') and split_pair(x)[1].startswith(('Some', 'None')) else 'None'})"
+        for (i, t, v), x in zip(rp_rt.meta, ans["reply rt"])])
+    # what a dialling node wrote on its own must be a sequence of well-formed frames
+    plan.many("live written", [
+        "run {} (fun _ => true) [{}]".format(U64 - 1, split_top(x)[5] if x.count(",") >= 5 else "[]")
+        for x in ans["live"]])
     plan.many("stream oracle", exprs_oracle)
     plan.many("stream model", exprs_model)
     live_exprs = []
@@ -1049,6 +1220,148 @@ def run(chk):
             soft("serialized form differs from the model", d)
         if len(samples) < 4 and i in (8, 2):
             samples.append(d)
+    # ---- enum through box_message / from_boxed: judged like enum rt
+    got, mod = ans[en_box.kind], model_of(en_box)
+    for ln, (i, vs), x, y, o in zip(en_box.lines, en_box.meta, got, mod, plan.get("ebox oracle")):
+        chk.coverage["evaluations"] += 1
+        chk.count("enum_box." + HMSG[i][0])
+        distinct.add(("eb", i, str(vs)))
+        d = {"harness_line": ln, "variant": HMSG[i][0], "fields": str(vs),
+             "impl (box_message(remote).serialized_msg, from_boxed)": x, "model": show_term(y)}
+        if "PANIC" in x:
+            hard("box_message / from_boxed panics on a well-formed value", d)
+        elif o != "true":
+            hard("round trip fails: from_boxed(box_message(v, remote pid)) != v", d)
+        elif pt(x) != y:
+            soft("serialized form (box_message) differs from the model", d)
+    # ---- generic derived enum
+    got, mod = ans[g_de.kind], model_of(g_de)
+    for ln, (kind, tagb, args), x, y in zip(g_de.lines, g_de.meta, got, mod):
+        chk.coverage["evaluations"] += 1
+        model_ans, framing_ok = y[1], y[2]
+        chk.count("genum_de." + ("ok" if model_ans != "None" else ("badframing" if framing_ok == "false" else "badfield")))
+        distinct.add(("ge", ln))
+        d = {"harness_line": ln, "impl": x, "model": show_term(model_ans), "framing_ok": framing_ok}
+        if x == "PANIC":
+            hard("generated decoder (generic enum) panics instead of returning an error", d)
+        elif pt(x) != model_ans:
+            if x != "None" and framing_ok == "false":
+                hard("generated decoder (generic enum) accepts unknown variant / short or trailing bytes", d)
+            else:
+                soft("generated decoder (generic enum) differs from the model", d)
+    got, mod = ans[g_rt.kind], model_of(g_rt)
+    for ln, meta, x, y, o in zip(g_rt.lines, g_rt.meta, got, mod, plan.get("grt oracle")):
+        chk.coverage["evaluations"] += 1
+        chk.count("genum_rt")
+        distinct.add(("gr", ln))
+        d = {"harness_line": ln, "impl (serialized, back)": x, "model": show_term(y)}
+        if "PANIC" in x:
+            hard("generated (de)serializer (generic enum) panics on a well-formed value", d)
+        elif o != "true":
+            hard("round trip fails (generic enum): deserialize(serialize(v)) != v", d)
+        elif pt(x) != y:
+            soft("serialized form (generic enum) differs from the model", d)
+    # ---- primitive message types
+    got, mod = ans[p_de.kind], model_of(p_de)
+    for ln, (t, kind, args), x, y in zip(p_de.lines, p_de.meta, got, mod):
+        chk.coverage["evaluations"] += 1
+        chk.count("msg_de." + (y if isinstance(y, str) else y[0]))
+        distinct.add(("pd", ln))
+        if pt(x) != y:
+            d = {"harness_line": ln, "impl": x, "model": show_term(y)}
+            if x.startswith("POk") and y == "PErr":
+                hard("a primitive message type accepts something that is not a cast", d)
+            else:
+                soft("Message::deserialize of a primitive type differs from the model", d)
+    got, mod = ans[p_rt.kind], model_of(p_rt)
+    for ln, (t, v), x, y in zip(p_rt.lines, p_rt.meta, got, mod):
+        chk.coverage["evaluations"] += 1
+        chk.count("msg_rt." + t)
+        distinct.add(("pr", ln))
+        d = {"harness_line": ln, "impl (serialized, back)": x, "model": show_term(y)}
+        back = split_pair(x)[1]
+        if back == "PPanic" or not back.startswith("POk") or pt(back) != ("POk", pt(val_coq(t, v))):
+            hard("round trip fails: Message::deserialize(Message::serialize(v)) != v (primitive type)", d)
+        elif pt(x) != y:
+            soft("serialized form of a primitive message differs from the model", d)
+    for ln, x in zip(plain.lines, ans[plain.kind]):
+        chk.coverage["evaluations"] += 1
+        chk.count("plain")
+        if x != "(true, true, true, true)":
+            d = {"harness_line": ln, "impl (not serializable, serialize errs, box to remote errs, deserialize errs)": x}
+            if split_top(x)[3] != "true":
+                hard("a message type that is not serializable does not answer a serialized message with an error", d)
+            else:
+                soft("defaults of the Message trait differ", d)
+    # ---- reply bridges
+    got, mod = ans[rp_rt.kind], model_of(rp_rt)
+    for ln, (i, t, v), x, y, o in zip(rp_rt.lines, rp_rt.meta, got, mod, plan.get("reply oracle")):
+        chk.coverage["evaluations"] += 1
+        chk.count("reply_rt." + HMSG[i][0])
+        distinct.add(("rr", ln))
+        d = {"harness_line": ln, "impl (reply bytes on the wire, value at the caller)": x, "model": show_term(y)}
+        if x == "PANIC":
+            hard("a generated reply bridge panics", d)
+        elif o != "true":
+            hard("round trip fails: the reply value does not arrive unchanged at the caller", d)
+        elif pt(x) != y:
+            soft("reply encoding differs from the model", d)
+    got, mod = ans[rp_de.kind], model_of(rp_de)
+    for ln, (i, t, b), x, y in zip(rp_de.lines, rp_de.meta, got, mod):
+        chk.coverage["evaluations"] += 1
+        chk.count("reply_de." + ("delivered" if y[2] != "None" else "dropped"))
+        distinct.add(("rd", ln))
+        d = {"harness_line": ln, "impl (bytes, value at the caller)": x, "model": show_term(y)}
+        if x == "PANIC":
+            hard("a generated reply bridge panics on malformed reply bytes", d)
+        elif "PENDING" in x:
+            hard("malformed reply bytes leave the caller's reply port neither answered nor closed", d)
+        elif pt(x) != y:
+            soft("reply decoding differs from the model", d)
+    # ---- around the job wire form
+    for ln, (sub, ttl), x in zip(jo_misc.lines, jo_misc.meta, ans[jo_misc.kind]):
+        chk.coverage["evaluations"] += 1
+        eq_self, eq_back, exp_o, exp_b, fresh, weird = split_top(x)
+        chk.count("jo_misc.partial_eq_after_roundtrip=" + eq_back)
+        chk.count("jo_misc.expired=" + exp_o)
+        d = {"harness_line": ln, "impl (o == o, decode(encode o) == o, original expired, decoded expired, "
+             "Job::new round trip, inner CallReply rejected)": x}
+        in_range = ttl is None or 0 < ttl < U64
+        if fresh != "true" or exp_b == "DESER_FAILED":
+            hard("round trip fails: a Job built with Job::new does not come back", d)
+        elif in_range and exp_o != exp_b:
+            soft("a job's expiry differs after a round trip of its options", d)
+        elif eq_self != "true" or weird != "true":
+            soft("JobOptions equality / Job::serialize of a misbehaving inner message differ", d)
+    got, mod = ans[jobp.kind], model_of(jobp)
+    for ln, meta, x, y in zip(jobp.lines, jobp.meta, got, mod):
+        chk.coverage["evaluations"] += 1
+        model_ans, meta_ok = y[1], y[2]
+        chk.count("jobp_de." + (model_ans if isinstance(model_ans, str) else model_ans[0]))
+        distinct.add(("jp", ln))
+        if pt(x) != model_ans:
+            d = {"harness_line": ln, "impl": x, "model": show_term(model_ans)}
+            if x.startswith("JPOk") and meta_ok == "false":
+                hard("job decoder (primitive inner message) accepts bad metadata", d)
+            else:
+                soft("Job<K, primitive>::deserialize differs from the model", d)
+    # ---- live actors of primitive / non-serializable message types
+    got, mod = ans[actor2.kind], model_of(actor2)
+    for ln, (t, msgs), x, y in zip(actor2.lines, actor2.meta, got, mod):
+        chk.coverage["evaluations"] += 1
+        tt = pt(x)
+        alive, sent, handled = tt[1], tt[2], tt[3]
+        chk.count("actor." + ("plain" if t == "plain" else "prim"))
+        distinct.add(("a2", ln))
+        d = {"harness_line": ln, "impl (alive, sent, handled)": x, "model handled": show_term(y)}
+        if alive != "true":
+            hard("an undecodable payload harmed the receiving actor (it is no longer running)", d)
+        elif t == "plain" and handled:
+            hard("an actor whose message type is not serializable handled a serialized message", d)
+        elif t != "plain" and (not handled or handled[-1] != y[-1]):
+            hard("the actor no longer handles a well-formed message after undecodable ones", d)
+        elif handled != y:
+            soft("messages handled by the live actor differ from the model", d)
     # ---- JobOptions round trip (F5)
     got, mod = ans[jo_rt.kind], model_of(jo_rt)
     for ln, (s, ttl), x, y in zip(jo_rt.lines, jo_rt.meta, got, mod):
@@ -1149,7 +1462,7 @@ def run(chk):
     # ---- streams (judgement)
     o_res = plan.get("stream oracle")
     m_res = plan.get("stream model")
-    for (ci, answers, raw_answers, uniq), o, m in zip(prepared, o_res, m_res):
+    for (ci, answers, raw_answers, uniq, usock), o, m in zip(prepared, o_res, m_res):
         c = stream_cases[ci]
         data, maxv = c["data"], c["max"]
         chk.coverage["evaluations"] += len(answers)
@@ -1158,11 +1471,12 @@ def run(chk):
         declared = int.from_bytes(data[:8], "big") if len(data) >= 8 else None
         d = {"harness_line (one chunk)": f"stream {maxv} {hexs(data)} - ready",
              "max": maxv, "stream": list(data) if len(data) <= 200 else data.hex(), "splits": len(c["splits"]),
-             "distinct impl answers": uniq, "model (one chunk, one split)": show_term(m)}
+             "distinct impl answers": uniq, "distinct impl answers over sockets (tcp/tls; byte count not observable)": usock,
+             "model (one chunk, one split)": show_term(m)}
         last = m[0][1][-1] if m[0][1] else None
         chk.count("stream.end." + (show_term(last) if last is not None else "none"))
         if o != "true":
-            if len(uniq) > 1:
+            if len(uniq) > 1 or len({a.rsplit(",", 1)[0] for a in uniq + usock}) > 1:
                 hard("the same stream is decoded differently under different fragmentations", d)
             else:
                 hard("frame reader violates the framing rules (see check_C19_stream)", d)
@@ -1209,14 +1523,21 @@ def run(chk):
             soft("session reader differs from the model", d)
 
     # ---- live node: a bad frame closes that session only
-    for c, x, framing_error in zip(live_cases, ans["live"], plan.get("live model")):
+    for c, x, framing_error, written in zip(live_cases, ans["live"], plan.get("live model"), plan.get("live written")):
         chk.coverage["evaluations"] += 1
         t = pt(x)
         link_before, raw1_closed, others_closed, server_ok, link_ready = t[1:6]
-        must_close = framing_error == "true" or c["how"] == "close"
+        must_close = framing_error == "true" or c["how"] in ("close", "dropfirst", "writefail", "flushfail")
         chk.count("live." + ("must_close" if must_close else "may_stay"))
-        distinct.add(("l", c["max"], c["how"], c["data"]))
-        d = {"harness_line": f"live {c['max']} {c['how']} {hexs(c['data'])}",
+        chk.count(f"live.{c['transport']}.{c['role']}")
+        distinct.add(("l", c["max"], c["how"], c["data"], c["transport"], c["role"]))
+        w_outs = written[1]
+        if t[6] and not (all(o[0] == "FMsg" for o in w_outs[:-1]) and w_outs[-1] == ("FErr", "EEof")):
+            hard("what a session wrote on its own is not a sequence of well-formed frames",
+                 {"harness_line": live_line(c), "written": t[6], "one-shot parse": show_term(written)})
+        elif t[6]:
+            chk.count("live.frames_written_by_node", len(w_outs) - 1)
+        d = {"harness_line": live_line(c), "transport": c["transport"], "role of the node": c["role"],
              "max": c["max"], "then": c["how"], "bytes written into session raw1": list(c["data"]),
              "impl (link ready before, raw1 closed, another session closed, node server answers, link still ready)": x,
              "model: framing error before end of input": framing_error}
@@ -1251,6 +1572,28 @@ def run(chk):
                      "for the node server): that session is disconnected when the model predicts a framing error or the "
                      "stream ends; the other raw session, the authenticated link and the node server stay up")
     return chk.finish(trusted_base=TRUSTED)
+
+
+def live_line(c):
+    return (f"live {c['max']} {c['how']} {hexs(c['data'])} {c['transport']} {c['role']} "
+            f"{','.join(map(str, c['sizes'])) or '-'}")
+
+
+def split_top(x):
+    """top-level components of the harness's '(a, b, c, ...)'"""
+    out, depth, cur = [], 0, ""
+    for ch in x.strip()[1:-1]:
+        if ch in "([":
+            depth += 1
+        elif ch in ")]":
+            depth -= 1
+        if ch == "," and depth == 0:
+            out.append(cur.strip())
+            cur = ""
+        else:
+            cur += ch
+    out.append(cur.strip())
+    return out
 
 
 def split_pair(x):
